@@ -153,10 +153,17 @@ def crossing_scene(rng, name=''):
     nce = rng.choice([1, 2, 4])
     ceilos = ['a', 'b', 'c', 'd'][:nce]
     H = rng.choice([1500, 2000, 4000])
-    n1, gap, n2 = rng.randint(10, 20), rng.randint(18, 26), rng.randint(25, 40)
+    # (a long-lived deck reaches 3 oktas or more: it stays reportable when it is not the first row)
+    n1, gap, n2 = rng.choice([rng.randint(10, 20), rng.randint(40, 55)]), rng.randint(18, 26), rng.randint(25, 40)
     nt = n1 + gap + n2
     lo, hi = H - rng.choice([300, 400]), H + rng.choice([500, 700])
-    cov1, cov2, expo = rng.choice([0.5, 0.9]), rng.choice([0.6, 0.85]), rng.choice([0.4, 0.5, 0.6])
+    cov1, cov2, expo = rng.choice([0.5, 0.9, 1.0]), rng.choice([0.6, 0.85]), rng.choice([0.4, 0.5, 0.6])
+    # every other scene: a steady climb, fine slices and generous padding - the thin slices overlap, the whole bundle is re-clustered in
+    # time and height, and the deck and the climbing cloud come out as two groups that overlap in height (measured: with a full
+    # look-back the order of the bases differs from the order of the means, with a short one from the order of the lowest hits)
+    steady = rng.random() < 0.5
+    if steady:
+        cov1, cov2, expo = rng.choice([0.9, 1.0]), rng.choice([0.9, 1.0]), 1.0
     rows = []
     for c in ceilos:
         for t in range(nt):
@@ -172,6 +179,12 @@ def crossing_scene(rng, name=''):
     prms = {'MAX_HITS_OKTA0': rng.choice([0, 1]), 'MAX_HOLES_OKTA8': 0}
     if rng.random() < 0.4:
         prms['MSA'] = H + rng.choice([100, 2000])
+    if steady:
+        prms['SLICING_PRMS'] = {'distance_threshold': rng.choice([0.05, 0.1])}
+        prms['GROUPING_PRMS'] = {'height_pad_perc': rng.choice([100, 200, 400])}
+    lb = rng.choice([100, 100, 30, 20])           # a short look-back: the base of the climbing cloud comes from its recent, high hits
+    if lb < 100:
+        prms['BASE_LVL_LOOKBACK_PERC'] = lb
     return {'family': 'R-crossing', 'name': name, 'rows': rows, 'prms': prms, 'indomain': True}
 
 
